@@ -246,8 +246,9 @@ def s_status( ctx ):
         0x05, ( 0x0000, ), 'unknown tag/attribute (resolve/lookup)' )
     # ... the attribute the path names does not exist ( lookup gave None ): still "path destination unknown", not an element range error
     looked = { t_.id for a_ in ast.walk( fn ) if isinstance( a_, ast.Assign ) and is_call_to( a_.value, 'lookup', 'device.lookup' ) for t_ in a_.targets if isinstance( t_, ast.Name ) }
-    at( lambda s: isinstance( s, ast.Assert ) and isinstance( s.test, ast.Compare ) and isinstance( s.test.ops[0], ast.IsNot ) and isinstance( s.test.left, ast.Name ) and s.test.left.id in looked
-        and isinstance( s.test.comparators[0], ast.Constant ) and s.test.comparators[0].value is None,
+    at( lambda s: isinstance( s, ast.Assert ) and isinstance( s.test, ast.Compare ) and isinstance( s.test.ops[0], ast.IsNot )
+        and any( isinstance( a_, ast.Name ) and a_.id in looked and isinstance( b_, ast.Constant ) and b_.value is None
+                 for a_, b_ in (( s.test.left, s.test.comparators[0] ), ( s.test.comparators[0], s.test.left ))),
         0x05, ( 0x0000, ), 'unknown attribute ( lookup gave nothing )' )
     at( lambda s: isinstance( s, ast.Assert ) and isinstance( s.test, ast.Compare ) and isinstance( s.test.ops[0], ast.In )
         and 'type' in attrs_in( s.test.left ),
